@@ -99,7 +99,18 @@ type auStep struct {
 	Calls []auCall `json:"calls"`
 }
 
+// auNamings: how the abstract registry ids of a scenario are spelled in URLs.  In most scenarios the
+// two registries differ ONLY in the port (or in having one), so that any sharing of per-host state
+// keyed on less than URL.Host shows in the trace.
+var auNamings = [][]string{
+	{"reg.example:5000", "reg.example:5001"},
+	{"reg.example", "reg.example:443"},
+	{"h1", "h2"},
+	{"registry.example:80", "registry.example"},
+}
+
 type auScen struct {
+	Names map[string]string `json:"names"` // abstract host id -> host[:port] used in URLs
 	Cfg   map[string]string `json:"cfg"`
 	Timed bool              `json:"timed"`
 	Src   string            `json:"src"`
@@ -270,6 +281,13 @@ func auHeaderFor(o auOffer, rnd *rand.Rand) (string, string) {
 
 // auConcretise fills in the concrete header lines of every scripted registry answer.
 func auConcretise(sc *auScen, rnd *rand.Rand) {
+	if sc.Names == nil {
+		nm := auNamings[[]int{0, 0, 1, 1, 2, 3}[rnd.Intn(6)]]
+		sc.Names = map[string]string{}
+		for i, h := range auHosts {
+			sc.Names[h] = nm[i]
+		}
+	}
 	for si := range sc.Steps {
 		for ci := range sc.Steps[si].Calls {
 			c := &sc.Steps[si].Calls[ci]
@@ -585,6 +603,7 @@ type auCallState struct {
 }
 
 type auRun struct {
+	rev     map[string]string // URL host -> abstract id
 	sc      *auScen
 	mu      sync.Mutex
 	events  []auEv
@@ -594,6 +613,21 @@ type auRun struct {
 	tokN    int
 	rtN     int
 	planned int // tick of the step in progress
+}
+
+// abstract: the id of the registry a URL host names (anything else is logged as it is)
+func (r *auRun) abstract(host string) string {
+	if id, ok := r.rev[host]; ok {
+		return id
+	}
+	return host
+}
+
+func (r *auRun) concrete(id string) string {
+	if h, ok := r.sc.Names[id]; ok {
+		return h
+	}
+	return id
 }
 
 func (r *auRun) now() (ms int, bucket int) {
@@ -629,6 +663,7 @@ func (c auConfig) EntryForRegistry(host string) (ociauth.ConfigEntry, error) {
 	r := c.r
 	r.mu.Lock()
 	defer r.mu.Unlock()
+	host = r.abstract(host)
 	kind := r.sc.Cfg[host]
 	ev := auEv{"op": "cfglookup", "h": host, "rt": 0}
 	var e ociauth.ConfigEntry
@@ -740,7 +775,7 @@ func (t auTransport) RoundTrip(req *http.Request) (*http.Response, error) {
 	if cs != nil {
 		slot = cs.slot
 	}
-	host := req.URL.Host
+	host := r.abstract(req.URL.Host)
 	if strings.HasPrefix(req.URL.Path, "/token") || strings.Contains(req.Header.Get("Content-Type"), "x-www-form-urlencoded") {
 		var form url.Values
 		raw := ""
@@ -821,7 +856,7 @@ func (t auTransport) RoundTrip(req *http.Request) (*http.Response, error) {
 		r.log(ev, true)
 		return resp, err
 	}
-	r.log(auEv{"op": "regreq", "c": slot, "to": host, "cred": auCred(req, nil), "method": req.Method}, true)
+	r.log(auEv{"op": "regreq", "c": slot, "to": host, "cred": auCred(req, nil), "method": req.Method, "urlhost": req.URL.Host}, true)
 	ans := auRegAns{Status: 200}
 	if cs != nil && cs.regN < len(cs.call.Reg) {
 		ans = cs.call.Reg[cs.regN]
@@ -933,7 +968,7 @@ func (r *auRun) doCall(tr http.RoundTripper, slot int, call *auCall, at int, beg
 		method = "PUT"
 		body = newBody()
 	}
-	hreq, err := http.NewRequestWithContext(ctx, method, "http://"+call.H+"/v2/a/manifests/latest", body)
+	hreq, err := http.NewRequestWithContext(ctx, method, "http://"+r.concrete(call.H)+"/v2/a/manifests/latest", body)
 	if err != nil {
 		panic(err)
 	}
@@ -988,7 +1023,10 @@ func (r *auRun) doCall(tr http.RoundTripper, slot int, call *auCall, at int, beg
 
 // runScen executes a scenario once; ok=false: timing was outside the safe zone (timed scenarios only).
 func auRunScen(sc *auScen) (events []auEv, ok bool) {
-	r := &auRun{sc: sc}
+	r := &auRun{sc: sc, rev: map[string]string{}}
+	for id, h := range sc.Names {
+		r.rev[h] = id
+	}
 	tr := ociauth.NewStdTransport(ociauth.StdTransportParams{Config: auConfig{r}, Transport: auTransport{r}})
 	r.start = time.Now()
 	for si := range sc.Steps {
@@ -1156,7 +1194,7 @@ func authCmd(args []string) error {
 				cfg[h] = k
 			}
 		}
-		enc.Encode(auEv{"op": "reset", "id": i, "cfg": cfg, "timed": scens[i].Timed, "src": scens[i].Src, "script": string(script)})
+		enc.Encode(auEv{"op": "reset", "id": i, "cfg": cfg, "timed": scens[i].Timed, "src": scens[i].Src, "names": scens[i].Names, "script": string(script)})
 		for _, e := range results[i] {
 			enc.Encode(e)
 			nev++
